@@ -32,6 +32,7 @@ GEOS = [
     dict(G0, shapes=[[2, 3, 2]], ptype="INPUT"),                   # rank 3, two of three axes preconditioned: p = 4
     dict(G0, shapes=[[2, 2, 3], [3]], ptype="OUTPUT"),             # rank 3, last axis only: p = 2
     dict(G0, shapes=[[4, 3], [3]], rel=False),                     # absolute ridge (relative_matrix_epsilon=False)
+    dict(G0, shapes=[[4, 3]], gscale=2.0 ** 20),                   # gradients of scale 1e6 (un-grafted: update O(1))
     dict(G0, shapes=[[6, 5]], crank=2),                            # low-rank packed roots: 2 largest directions kept
     # ... smallest direction kept.  Only shapes whose Gram matrices have a UNIQUE smallest eigenvalue from the
     # first step on (7x6: ranks 6 of 7 and 6 of 6): with a tie at the cut the retained vector, and with it the
